@@ -21,6 +21,7 @@ import (
 	"github.com/go-openapi/runtime/middleware/header"
 	"github.com/go-openapi/runtime/middleware/untyped"
 
+	"verif/gen"
 	"verif/mon"
 	"verif/props/c07/accept"
 )
@@ -30,9 +31,10 @@ func init() {
 		ID:    "C07",
 		Level: "exploration",
 		Rule: "G1: well-formed Accept / Accept-Encoding values from the RFC 7231 grammar (1-6 ranges over a 10-type vocabulary incl. */* and type/*, parameters before and after q, parameter names ending in 'q', " +
-			"quoted strings, q-values with 0-80 (one long value in 25: 120-1000) fractional digits on a 1e-5 grid (same number in several spellings; distinct numbers differ by >= 5e-6), optional SP/HTAB, 1-3 field lines) x offer lists " +
-			"(permutations, duplicates, offers with parameters, empty) x default present/absent; G2: arbitrary bytes and byte-level mutations of G1. Every case runs the real ParseAccept and Negotiate* functions; " +
-			"a share goes through the API handler (RoutesHandler over an untyped API built from generated Swagger 2.0; GET without body and POST with an admitted JSON body; the reflective operation handler and the call sequence of a generated server: RouteInfo, BindValidRequest, Respond). " +
+			"quoted strings, q-values with 0-80 (one long value in 25: 120-1000) fractional digits on a 1e-5 grid (same number in several spellings; distinct numbers differ by >= 5e-6), optional SP/HTAB, 1-3 field lines; one header in a hundred holds 9, 17, 33, 65 or (rarely) 257 ranges, one in a hundred is spread over 5-40 field lines, in half of both the only acceptable range comes last) x offer lists " +
+			"(permutations, duplicates, offers with parameters, empty; in 6% of the cases one to three offers are spelled with upper-case letters - application/vnd.ms-excel.sheet.macroEnabled.12, X-Snappy - and the header names them verbatim) x default present/absent; G2: arbitrary bytes and byte-level mutations of G1. Every case runs the real ParseAccept and Negotiate* functions; " +
+			"a share goes through the API handler (RoutesHandler over an untyped API built from generated Swagger 2.0; GET without body and POST with an admitted JSON body; the reflective operation handler and the call sequence of a generated server: RouteInfo, BindValidRequest, Respond - run from a Builder middleware on a Context made by NewContext, and, for a third of all requests, as the operation handler of a RoutableAPI (gen.GeneratedAPI) on a Context made by NewRoutableContext, the constructor generated servers use; one API default in ten carries parameters; one description in twelve declares types spelled with upper-case letters). " +
+			"Every request of the handler level goes to a declared path and method: a request the router does not route, or that reaches the Builder's middleware without a MatchedRoute, is a violation. " +
 			"The offers of an operation are computed from its DECLARATION (produces of the operation, else of the spec, plus the API default); the observed MatchedRoute.Produces must be that set and only lends its order. " +
 			"The vocabulary holds types whose TYPE is a proper prefix of another (text / texture / textile), 'type/*' ranges on truncated and extended type names (tex/*, t/*, textx/*) and exact ranges one byte short or long (text/plai, text/plainx). " +
 			"The library is handed copies of the offers and of the field lines; the copies must come back unmodified. " +
@@ -40,7 +42,9 @@ func init() {
 			"non-trivial = judged header with >= 2 acceptable ranges that match >= 2 distinct offers; distinct by (function, header lines, offers)",
 		Assumptions: []string{
 			"selection rule as stated: maximum over matching (range, offer) pairs of q, then range specificity (exact > type/* > */*), then earlier offer; parameters of ranges and offers are ignored for matching",
-			"strong oracle only inside the grammar: lower-case type/subtype tokens, 'q' written in lower case, no whitespace around '=', no '*/subtype', no empty list elements (TRIAGE-PENDING C07-1: the strict parser skips them and the generators insert them once accept.JudgeEmptyElements is set), qvalue = 0[.digits] | 1[.zeros]; everything else is judged for totality and result-in-offers only",
+			"strong oracle only inside the grammar: lower-case type/subtype tokens, 'q' written in lower case, no whitespace around '=', no '*/subtype', qvalue = 0[.digits] | 1[.zeros]; empty list elements are skipped (RFC 7230 section 7) and are part of the judged grammar; everything else is judged for totality and result-in-offers only",
+			"offers and ranges with upper-case letters: whether a range and an offer that differ in letter case only match is not stated; such a pair of header and offer list is judged (same selection rule) exactly when every (range, offer) pair matches verbatim iff it matches with case ignored - a range that names an offer byte for byte matches it under every reading - and only for headers of the plain form 'range[;q=value]' with at most 5 fraction digits; the letter case of the ranges ParseAccept hands out is not judged there",
+			"TRIAGE-PENDING C07-mixed-case-produces: descriptions that declare a type with upper-case letters always get a parameter-less API default producer (without one, serving such a type panics 'can't find a producer' after a correct negotiation: the producer registry lower-cases its keys and is asked with the declared spelling)",
 			"headers holding two different q-values closer than 1e-6 are not judged by the strong oracle",
 			"a header that is present but holds no range is not judged (the statement speaks of a missing header only)",
 			"header.ParseAccept is judged on what the selection rule needs: one spec per range in order with the range's type, Q == 0 exactly for quality 0, and Q ordered/equal as the exact decimals are",
@@ -67,8 +71,11 @@ type Case struct {
 	API       *APIDesc `json:"api,omitempty"`
 	Op        int      `json:"op,omitempty"`
 	WantOrder []string `json:"observed_produces_order,omitempty"`
-	Flow      string   `json:"flow,omitempty"` // "" the reflective (untyped) operation handler; "generated": RouteInfo, BindValidRequest, Respond as a generated server's operation does
-	Body      bool     `json:"body,omitempty"` // POST with an admitted JSON body (needs api.post_twin) instead of a body-less GET
+	// Flow: "" the reflective (untyped) operation handler; "generated": RouteInfo, BindValidRequest, Respond as a
+	// generated server's operation does, on a Context made by NewContext; "generated-routable": the same sequence as
+	// the operation handler of a RoutableAPI, on a Context made by NewRoutableContext (what a generated server builds)
+	Flow string `json:"flow,omitempty"`
+	Body bool   `json:"body,omitempty"` // POST with an admitted JSON body (needs api.post_twin) instead of a body-less GET
 	// Earlier: the Accept field lines of requests served by the same handler (same operation, flow and
 	// body) just before this one; a replay serves them first, unjudged. State kept across requests is
 	// part of what is judged: each request is negotiated from its own header alone.
@@ -96,6 +103,19 @@ func checkParse(specs []header.AcceptSpec, ranges []accept.Range) (mode, detail 
 	return accept.CheckParse(vals, qs, ranges)
 }
 
+// checkParseM: in the mixed-case reading the letter case of the ranges ParseAccept hands out is not judged.
+func checkParseM(specs []header.AcceptSpec, ranges []accept.Range, mixed bool) (mode, detail string) {
+	if !mixed {
+		return checkParse(specs, ranges)
+	}
+	folded := make([]header.AcceptSpec, len(specs))
+	for i, sp := range specs {
+		sp.Value = strings.ToLower(sp.Value)
+		folded[i] = sp
+	}
+	return checkParse(folded, foldRanges(ranges))
+}
+
 // ---- evaluation of one function-level case ----
 
 type verdict struct {
@@ -113,6 +133,7 @@ type verdict struct {
 	decidedBy  string
 	want       accept.Pick
 	modified   string // what of the caller's the library modified: "offers" / "header"
+	mixed      bool   // judged through the mixed-case reading (offers or ranges with upper-case letters)
 	modDetail  string
 }
 
@@ -243,18 +264,14 @@ func evalType(lines []string, offers []string, def string) (v verdict) {
 		}
 	}
 	v.member = v.got == def || contains(offers, v.got)
-	p := accept.ParseStrict(lines, true)
-	if !p.Judged {
-		v.why = p.Why
+	p, mixed, why := judgedParse(lines, offers, true)
+	if why != "" {
+		v.why = why
 		return v
 	}
-	if !accept.CleanOffers(offers, true) {
-		v.why = "offers-outside-grammar"
-		return v
-	}
-	v.judged = true
+	v.judged, v.mixed = true, mixed
 	if p.Present {
-		v.pMode, v.pDetail = checkParse(specs, p.Ranges)
+		v.pMode, v.pDetail = checkParseM(specs, p.Ranges, mixed)
 	}
 	want := accept.Select(p.Present, p.Ranges, offers, true)
 	v.want = want
@@ -325,20 +342,16 @@ func evalEnc(lines []string, offers []string) (v verdict) {
 		}
 	}
 	v.member = v.got == "" || v.got == "identity" || contains(offers, v.got)
-	p := accept.ParseStrict(lines, false)
-	if !p.Judged {
-		v.why = p.Why
+	p, mixed, why := judgedParse(lines, offers, false)
+	if why != "" {
+		v.why = why
 		return v
 	}
-	if !accept.CleanOffers(offers, false) {
-		v.why = "offers-outside-grammar"
-		return v
-	}
-	v.judged = true
+	v.judged, v.mixed = true, mixed
 	if !p.Present {
 		return v // not stated for encodings
 	}
-	v.pMode, v.pDetail = checkParse(specs, p.Ranges)
+	v.pMode, v.pDetail = checkParseM(specs, p.Ranges, mixed)
 	want := accept.Select(true, p.Ranges, offers, false)
 	v.want = want
 	v.nontrivial = nontrivial(p.Ranges, offers, false)
@@ -391,9 +404,20 @@ var budget = shrinkBudget{n: map[string]int{}}
 
 const shrinkCap = 300
 
+// longShrinkCap: headers of more than 12 ranges are expensive to shrink (the reference compares q-values pairwise)
+const longShrinkCap = 12
+
 func (b *shrinkBudget) take(key string) bool {
 	b.n[key]++
 	return b.n[key] <= shrinkCap
+}
+
+func (b *shrinkBudget) takeFor(key string, lines []string) bool {
+	if countRanges(lines) > 12 {
+		b.n["long|"+key]++
+		return b.n["long|"+key] <= longShrinkCap
+	}
+	return b.take(key)
 }
 
 func runFunc(m *mon.M, c *Case) {
@@ -432,8 +456,14 @@ func runFunc(m *mon.M, c *Case) {
 		return
 	}
 	m.Class(pfx + ":judged")
+	if v.mixed {
+		m.Class(pfx + ":judged/mixed-case")
+	}
 	if v.decidedBy != "" {
 		m.Class(pfx + ":decided-by/" + v.decidedBy)
+		if v.mixed {
+			m.Class(pfx + ":mixed-case-decided-by/" + v.decidedBy)
+		}
 	}
 	if v.nontrivial {
 		m.NT(pfx + "|" + strings.Join(lines, "\x00") + "|" + strings.Join(offers, "\x00"))
@@ -441,17 +471,46 @@ func runFunc(m *mon.M, c *Case) {
 	mk := func(l, o []string) *Case {
 		return &Case{Kind: c.Kind, Absent: l == nil, Lines: mon.QS(l), Offers: mon.QS(o), Default: c.Default}
 	}
+	shrink := func(l, o []string, media bool, fails func(l, o []string) bool) ([]string, []string) {
+		pre := preShrinkLong(l, o, media, fails)
+		if countRanges(pre) > 12 {
+			// still long (the failure needs many ranges): the structural shrinker would try hundreds of candidates per step
+			for i := 0; i < len(o) && len(o) > 1; {
+				cand := append(append([]string{}, o[:i]...), o[i+1:]...)
+				if fails(pre, cand) {
+					o = cand
+				} else {
+					i++
+				}
+			}
+			return pre, o
+		}
+		return accept.Shrink(pre, o, media, fails)
+	}
+	if v.mixed {
+		shrink = shrinkMixed
+	}
+	// the feature class of a parse violation: the header's most telling syntactic feature
+	feature := func(l []string, mixed bool) []string {
+		if mixed {
+			return []string{"mixed-case-range"}
+		}
+		f := accept.Features(l, accept.ParseStrict(l, media).Ranges)
+		if countRanges(l) > 8 {
+			f = append([]string{"more-than-8-ranges"}, f...)
+		}
+		return f
+	}
 	if v.pMode != "" {
 		if v.nMode != "" {
 			m.Class(pfx + ":choice-mismatch-attributed-to-parse-violation")
 		}
-		p := accept.ParseStrict(lines, media)
-		key := v.pMode + "/" + strings.Join(accept.Features(lines, p.Ranges), "+")
-		if !budget.take(key) {
+		key := v.pMode + "/" + strings.Join(feature(lines, v.mixed), "+")
+		if !budget.takeFor(key, lines) {
 			m.Class("parse-violation-not-shrunk-after-cap:" + key)
 			return
 		}
-		sl, so := accept.Shrink(lines, offers, media, func(l, o []string) bool {
+		sl, so := shrink(lines, offers, media, func(l, o []string) bool {
 			w := eval(l, o)
 			return w.judged && w.pMode != ""
 		})
@@ -459,15 +518,14 @@ func runFunc(m *mon.M, c *Case) {
 		if !w.judged || w.pMode == "" { // cannot happen; keep the original
 			sl, so, w = lines, offers, v
 		}
-		sp := accept.ParseStrict(sl, media)
-		sig := w.pMode + "/" + accept.Features(sl, sp.Ranges)[0]
+		sig := w.pMode + "/" + feature(sl, w.mixed)[0]
 		m.Violate(sig, fmt.Sprintf("header.ParseAccept(%q): %s", sl, w.pDetail), mk(sl, so))
 		return
 	}
 	if v.nMode != "" {
 		sl, so := lines, offers
-		if budget.take(pfx + "/" + v.nMode) {
-			sl, so = accept.Shrink(lines, offers, media, func(l, o []string) bool {
+		if budget.takeFor(pfx+"/"+v.nMode, lines) {
+			sl, so = shrink(lines, offers, media, func(l, o []string) bool {
 				w := eval(l, o)
 				return w.judged && w.pMode == "" && w.nMode != ""
 			})
@@ -480,8 +538,25 @@ func runFunc(m *mon.M, c *Case) {
 		if accept.HasOWSBeforeSemicolon(so...) {
 			feat = "/offer-with-ows-before-semicolon"
 		}
+		if w.mixed {
+			feat += "/mixed-case-offer"
+		}
+		if nr := countRanges(sl); nr > 8 {
+			feat += "/more-than-8-ranges"
+		} else if len(sl) > 3 {
+			feat += "/more-than-3-field-lines"
+		}
 		m.Violate(pfx+"/"+w.nMode+feat, w.nDetail, mk(sl, so))
 	}
+}
+
+// countRanges: the number of list elements of the field lines (top-level commas; close enough for a feature class).
+func countRanges(lines []string) int {
+	n := 0
+	for _, l := range lines {
+		n += 1 + strings.Count(l, ",")
+	}
+	return n
 }
 
 // runTotal drives every exported parser of the anchored file with the same bytes.
@@ -707,8 +782,38 @@ func build(d *APIDesc) (*built, error) {
 	return b, nil
 }
 
-// handler builds a fresh context and router (the order of MatchedRoute.Produces is fixed here).
-func (b *built) handler() (http.Handler, *middleware.Context) {
+// handler builds a fresh context and router (the order of MatchedRoute.Produces is fixed here). routable: the
+// context is made by NewRoutableContext over a gen.GeneratedAPI whose operation handlers run the generated-server
+// sequence; it serves the "generated-routable" flow only.
+func (b *built) handler(routable bool) (http.Handler, *middleware.Context) {
+	if routable {
+		g := gen.NewGeneratedAPI(b.api)
+		op := gen.GeneratedOp{
+			NewBinder: func() middleware.RequestBinder { return bodyBinder{} },
+			Handle: func(*http.Request, middleware.RequestBinder, interface{}) interface{} {
+				res, _ := b.handle()
+				return res
+			},
+		}
+		for i := range b.desc.Ops {
+			g.Operation("get", fmt.Sprintf("/op%d", i), op)
+			if b.desc.Post {
+				g.Operation("post", fmt.Sprintf("/op%d", i), op)
+			}
+		}
+		ctx := middleware.NewRoutableContext(b.doc, g, nil)
+		g.SetContext(ctx)
+		h := ctx.RoutesHandler(func(next http.Handler) http.Handler {
+			return http.HandlerFunc(func(w http.ResponseWriter, r *http.Request) {
+				if mr := middleware.MatchedRouteFrom(r); mr != nil {
+					b.obs.routed = true
+					b.obs.produces = append([]string(nil), mr.Produces...)
+				}
+				next.ServeHTTP(w, r)
+			})
+		})
+		return h, ctx
+	}
 	ctx := middleware.NewContext(b.doc, b.api, nil)
 	h := ctx.RoutesHandler(func(next http.Handler) http.Handler {
 		return http.HandlerFunc(func(w http.ResponseWriter, r *http.Request) {
@@ -763,6 +868,10 @@ func runHandlerOn(m *mon.M, c *Case, b *built, h http.Handler) {
 	// the input feature class of the flow (part of every signature of a flow other than the plain one)
 	shape := ""
 	switch {
+	case c.Flow == "generated-routable" && body:
+		shape = "/generated-flow-on-routable-context-with-body"
+	case c.Flow == "generated-routable":
+		shape = "/generated-flow-on-routable-context"
 	case c.Flow == "generated" && body:
 		shape = "/generated-flow-with-body"
 	case c.Flow == "generated":
@@ -801,7 +910,14 @@ func runHandlerOn(m *mon.M, c *Case, b *built, h http.Handler) {
 	ct := rec.Header().Get("Content-Type")
 	m.Class(fmt.Sprintf("handler:status-%d", status))
 	if !obs.routed {
-		m.Class("handler:not-routed(harness)")
+		// every request of this level goes to a path and method the description declares: the router must find the
+		// operation, and a middleware installed through the Builder must see its matched route
+		m.Class("handler:not-routed")
+		sig := "handler/builder-did-not-see-matched-route"
+		if status == http.StatusNotFound || status == http.StatusMethodNotAllowed {
+			sig = "handler/declared-operation-not-routed"
+		}
+		m.Violate(sig+shape, fmt.Sprintf("%s %s is declared, Accept=%q: status %d, handler ran=%v, and the middleware installed through the Builder found no MatchedRoute in the request it was handed", req.Method, req.URL.Path, lines, status, obs.ran), minimal())
 		return
 	}
 	m.SetAdd("observed-produces-orders", strings.Join(obs.produces, " | "))
@@ -817,21 +933,24 @@ func runHandlerOn(m *mon.M, c *Case, b *built, h http.Handler) {
 		m.Violate("handler/caller-header-modified", fmt.Sprintf("Accept lines %q sent, %q in the request afterwards", lines, req.Header["Accept"]), minimal())
 	}
 	offers := accept.StatementOffers(obs.produces, declared, b.desc.DefaultProduces)
-	p := accept.ParseStrict(lines, true)
-	if !p.Judged {
-		m.Class("handler:not-judged/" + p.Why)
+	p, mixed, why := judgedParse(lines, offers, true)
+	if why != "" {
+		m.Class("handler:not-judged/" + why)
 		return
+	}
+	if mixed {
+		m.Class("handler:judged/mixed-case")
+		shape += "/mixed-case-declared-type"
+	}
+	if nr := countRanges(lines); nr > 8 {
+		m.Class("handler:judged/more-than-8-ranges")
 	}
 	pFailed := false
 	if p.Present {
 		var specs []header.AcceptSpec
 		mon.Catch(func() { specs = header.ParseAccept(mkHeader("Accept", lines), "Accept") })
-		md, _ := checkParse(specs, p.Ranges)
+		md, _ := checkParseM(specs, p.Ranges, mixed)
 		pFailed = md != ""
-	}
-	if !accept.CleanOffers(offers, true) {
-		m.Class("handler:not-judged/offers-outside-grammar")
-		return
 	}
 	gate := accept.Select(p.Present, p.Ranges, offers, true)
 	if p.Present && nontrivial(p.Ranges, offers, true) {
@@ -882,7 +1001,7 @@ func runHandlerReplay(m *mon.M, c *Case) {
 	var h http.Handler
 	for i := 0; i < 400; i++ {
 		var ctx *middleware.Context
-		h, ctx = b.handler()
+		h, ctx = b.handler(c.Flow == "generated-routable")
 		if len(c.WantOrder) == 0 || sameList(producesOf(ctx, c.Op), c.WantOrder) {
 			break
 		}
@@ -911,12 +1030,33 @@ func genAPI(r *rand.Rand) *APIDesc {
 	default:
 		d.DefaultProduces = ""
 	}
+	if d.DefaultProduces != "" && r.Intn(10) == 0 {
+		// an API default that carries parameters
+		if r.Intn(3) == 0 {
+			d.DefaultProduces += accept.OWSOfferParams[r.Intn(len(accept.OWSOfferParams))]
+		} else {
+			d.DefaultProduces += accept.OfferParams[r.Intn(len(accept.OfferParams))]
+		}
+	}
+	// one description in twelve declares types spelled with upper-case letters
+	vocabulary := accept.Types
+	if r.Intn(12) == 0 {
+		vocabulary = append(append([]string{}, MixedTypes[:2+r.Intn(len(MixedTypes)-1)]...), accept.Types[:4]...)
+		// TRIAGE-PENDING C07-mixed-case-produces: on an API WITHOUT default producer, serving a declared type spelled with
+		// upper-case letters panics "can't find a producer" after a correct negotiation (untyped.API.RegisterProducer
+		// lower-cases its key, ProducersFor looks the declared spelling up verbatim; with a default producer Respond
+		// silently falls back to it). Reported (/tmp/alarms3/C07-mixed-case-produces-no-producer.json); exactly that
+		// shape is kept out of the generator: such a description always gets a default producer.
+		if d.DefaultProduces == "" || strings.Contains(d.DefaultProduces, ";") { // (the fallback looks a parameterised default up verbatim too)
+			d.DefaultProduces = "application/json"
+		}
+	}
 	list := func() []string {
 		n := 1 + r.Intn(4)
-		perm := r.Perm(len(accept.Types))
+		perm := r.Perm(len(vocabulary))
 		var out []string
 		for i := 0; i < n; i++ {
-			t := accept.Types[perm[i]]
+			t := vocabulary[perm[i]]
 			if r.Intn(6) == 0 {
 				t += accept.OfferParams[r.Intn(3)]
 			} else if accept.JudgeOWSBeforeSemicolon && r.Intn(16) == 0 {
@@ -945,6 +1085,12 @@ func genLines(r *rand.Rand, types []string) (lines []string, absent bool, flavou
 	if r.Intn(14) == 0 {
 		return nil, true, "absent"
 	}
+	switch r.Intn(100) {
+	case 0: // "any number of ranges"
+		return genManyRanges(r, types, false), false, "many-ranges"
+	case 1: // "multiple header lines"
+		return genManyRanges(r, types, true), false, "many-field-lines"
+	}
 	fl := accept.PickFlavour(r)
 	h := accept.GenHeader(r, fl, types)
 	return accept.WithEmptyElements(r, h.Render(accept.OWS(r))), false, accept.FlavourNames[fl]
@@ -956,7 +1102,17 @@ func run(m *mon.M) {
 	n := m.N(60000, 1500000)
 	for i := 0; i < n; i++ {
 		var c *Case
-		if i%5 == 4 {
+		if i%25 == 7 || i%50 == 9 {
+			// offers spelled with upper-case letters, named verbatim by the header
+			if i%50 == 9 {
+				lines, offers := genMixedEnc(r)
+				c = &Case{Kind: "enc", Lines: mon.QS(lines), Offers: mon.QS(offers)}
+			} else {
+				lines, offers := genMixedType(r)
+				c = &Case{Kind: "type", Lines: mon.QS(lines), Offers: mon.QS(offers), Default: mon.Q(accept.GenDefault(r))}
+			}
+			m.Class("flavour:mixed-case-offers")
+		} else if i%5 == 4 {
 			long := r.Intn(4) == 0
 			var lines []string
 			absent := r.Intn(20) == 0
@@ -1013,10 +1169,14 @@ func run(m *mon.M) {
 			m.Class("handler:spec-rejected")
 			continue
 		}
-		var hs []http.Handler
+		var hs, rhs []http.Handler
 		for k := 0; k < 3; k++ {
-			h, _ := b.handler()
+			h, _ := b.handler(false)
 			hs = append(hs, h)
+		}
+		for k := 0; k < 2; k++ {
+			h, _ := b.handler(true)
+			rhs = append(rhs, h)
 		}
 		for q := 0; q < nreq; q++ {
 			op := r3.Intn(len(d.Ops))
@@ -1037,13 +1197,19 @@ func run(m *mon.M) {
 			}
 			lines, absent, fl := genLines(r3, types)
 			c := &Case{Kind: "handler", Absent: absent, Lines: mon.QS(lines), API: d, Op: op}
-			if r3.Intn(3) == 0 {
+			h := hs[q%len(hs)]
+			switch r3.Intn(6) {
+			case 0:
 				c.Flow = "generated"
+			case 1, 2:
+				// the constructor a generated server uses
+				c.Flow = "generated-routable"
+				h = rhs[q%len(rhs)]
 			}
 			c.Body = d.Post && r3.Intn(2) == 0
 			m.Class("handler-flavour:" + fl)
 			m.Begin(c)
-			runHandlerOn(m, c, b, hs[q%len(hs)])
+			runHandlerOn(m, c, b, h)
 			if !absent && len(lines) > 1 {
 				// follow-ups on the same handler that share the first field line with the request just served
 				// but are to be negotiated differently
@@ -1052,7 +1218,7 @@ func run(m *mon.M) {
 					f := &Case{Kind: "handler", Lines: mon.QS(fl), API: d, Op: op, Flow: c.Flow, Body: c.Body, Earlier: [][]mon.Q{mon.QS(lines)}}
 					m.Class("handler-flavour:follow-up-sharing-first-line")
 					m.Begin(f)
-					runHandlerOn(m, f, b, hs[q%len(hs)])
+					runHandlerOn(m, f, b, h)
 				}
 			}
 		}
